@@ -35,6 +35,11 @@ def content_bytes(spec):
         s, n = int(s), int(n)
         k = (s % 4) * n // 4
         return gen_content(s, k) + bytes(n - k)
+    if kind in ("sp", "sd"):
+        # n bytes as in "g", then zeros up to `total`; "sp": the zeros are a HOLE (the file is extended with ftruncate, nothing is
+        # written there), "sd": the same bytes written out
+        s, n, total = rest.split(":")
+        return gen_content(int(s), int(n)) + bytes(int(total) - int(n))
     return bytes.fromhex(rest) if rest else b""
 
 
@@ -478,7 +483,12 @@ class Project:
         os.makedirs(os.path.dirname(full), exist_ok=True)
         if kind == "file":
             with open(full, "wb") as f:
-                f.write(content_bytes(arg))
+                if arg.startswith("sp:"):
+                    s_, n_, total_ = arg.split(":")[1:]
+                    f.write(gen_content(int(s_), int(n_)))
+                    f.truncate(int(total_))          # a trailing hole
+                else:
+                    f.write(content_bytes(arg))
         elif kind == "dir":
             os.makedirs(full)
         elif kind == "fifo":
